@@ -574,7 +574,19 @@ pub fn run(tier: &str) -> Result<Report, String> {
     let mut rep = Report::new("C16", tier, "exploration");
     let nets = core_nets(0)?;
     let which = ["tog2", "con2", "unf2", "inp2", "zer2", "shr3"];
-    let ks: Vec<u16> = vec![0, 1, 2, 3];
+    let thorough = tier != "quick";
+    let ks: Vec<u16> = if thorough { vec![0, 1, 2, 3, 4, 6] } else { vec![0, 1, 2, 3] };
+    // round trips (thorough): every core network, the networks with unusual names, the networks that are unusual as data and the
+    // ones declared in a non-lexicographic order (at most 64 colours, so that a set is a short list of masks)
+    let mut rt_nets: Vec<Arc<Bound>> = nets.iter().filter(|b| which.contains(&b.name.as_str())).cloned().collect();
+    if thorough {
+        rt_nets.extend(nets.iter().filter(|b| !which.contains(&b.name.as_str())).cloned());
+        rt_nets.extend(name_nets(0)?);
+        rt_nets.extend(edge_nets(0)?);
+        rt_nets.extend(decl_nets(0)?);
+        rt_nets.retain(|b| b.cols.len() <= 64);
+    }
+    rep.set("round_trip_networks", json!(rt_nets.iter().map(|b| b.name.clone()).collect::<Vec<_>>()));
     let formula_lists: Vec<Vec<String>> = vec![
         vec![],
         vec!["!{x}: AG EF {x}".into()],
@@ -583,7 +595,7 @@ pub fn run(tier: &str) -> Result<Report, String> {
     ];
     let mut cases: Vec<(Arc<Bound>, Case)> = vec![];
     let mut not_applicable = 0u64;
-    for b in nets.iter().filter(|b| which.contains(&b.name.as_str())) {
+    for b in rt_nets.iter() {
         let fams = label_families(b, 8);
         let unit: Vec<Mask> = vec![crate::bridge::full_mask(b.n); b.cols.len()];
         let empty: Vec<Mask> = vec![0; b.cols.len()];
@@ -619,7 +631,7 @@ pub fn run(tier: &str) -> Result<Report, String> {
                     for (fi, fl) in formula_lists.iter().enumerate() {
                         cases.push((b.clone(), Case { net: b.name.clone(), fmt: fmt.to_string(), k, sets: m.clone(), formulas: fl.clone(), prior: 0 }));
                         // histories of the target path: the same write over an earlier archive / a non-zip file / an empty file
-                        if fmt == "aeon" {
+                        if fmt == "aeon" || (thorough && (mi + fi) % 2 == 0) {
                             for prior in 1..=5u8 {
                                 cases.push((b.clone(), Case { net: b.name.clone(), fmt: fmt.to_string(), k, sets: m.clone(), formulas: fl.clone(), prior }));
                             }
